@@ -348,6 +348,61 @@ def slist_method(ip, l, name, args, kwargs):
     raise Unsupported('list method %s on symbolic list' % name)
 
 
+class SymStream(Sym):
+    """io.BytesIO over a buffer with symbolic content: (buffer, position)."""
+    import io as _io
+    pytype = _io.BytesIO
+
+    def __init__(self, buf, pos=0):
+        self.buf = buf
+        self.pos = pos
+
+
+def stream_method(ip, s, name, args, kwargs):
+    ctx = ip.ctx
+    if name == 'tell':
+        return s.pos
+    if name == 'seek':
+        if len(args) > 1 and args[1] != 0:
+            if args[1] == 1:
+                s.pos = ops.int_binop(ctx, 'Add', s.pos, args[0])
+                return s.pos
+            raise Unsupported('seek whence=%r' % (args[1],))
+        t = int_term(args[0])
+        if ctx.branch(t < 0):
+            pyraise(ValueError, 'negative seek value')
+        s.pos = args[0]
+        return s.pos
+    if name == 'read':
+        n = args[0] if args else None
+        total = ops.seq_len(s.buf)
+        if n is None or (isinstance(n, int) and n < 0):
+            r = ops.seq_slice(ctx, s.buf, s.pos, None, None)
+            s.pos = _imax(ctx, s.pos, total)
+            return r
+        end = ops.int_binop(ctx, 'Add', s.pos, n)
+        r = ops.seq_slice(ctx, s.buf, s.pos, end, None)
+        # new position: min(pos + n, len) but never before pos
+        tp, te, tt = int_term(s.pos), int_term(end), int_term(total)
+        s.pos = wrap_int(z3.If(tp >= tt, tp, z3.If(te > tt, tt, te)))
+        return r
+    if name == 'getvalue':
+        return s.buf
+    raise Unsupported('BytesIO.%s on symbolic stream' % name)
+
+
+def _imax(ctx, a, b):
+    ta, tb = int_term(a), int_term(b)
+    return wrap_int(z3.If(ta > tb, ta, tb))
+
+
+def m_bytesio(ip, args, kwargs):
+    import io
+    if is_concrete(args):
+        return io.BytesIO(*args)
+    return SymStream(args[0], 0)
+
+
 class BoundedCut(Exception):
     """Path dropped because it leaves a stated bound (never counted as proved)."""
 
@@ -359,6 +414,8 @@ def call_method(ip, obj, name, args, kwargs):
     ctx = ip.ctx
     if isinstance(obj, SList):
         return slist_method(ip, obj, name, args, kwargs)
+    if isinstance(obj, SymStream):
+        return stream_method(ip, obj, name, args, kwargs)
     if isinstance(obj, (SInt, SBool)) or (isinstance(obj, int) and not isinstance(obj, bool)):
         if name == 'to_bytes':
             return int_to_bytes(ip, obj, *args, **kwargs)
@@ -419,12 +476,26 @@ def int_to_bytes(ip, x, length=1, byteorder='big', signed=False):
     if length < 0:
         pyraise(ValueError, 'length argument must be non-negative')
     t = int_term(x)
+    if isinstance(byteorder, Sym):
+        raise Unsupported('symbolic byteorder')
+    if byteorder not in ('big', 'little'):
+        pyraise(ValueError, "byteorder must be either 'little' or 'big'")
+    digits = bytesum_digits(ctx, t)
+    if digits is not None:
+        # t is syntactically sum(d_i * 256^i) of byte terms: its bytes are the d_i (uniqueness of base-256 digits)
+        hi = [d for d in digits[length:] if not (isinstance(d, int) and d == 0)]
+        if hi:
+            nz = [(z3.IntVal(d) if isinstance(d, int) else d) != 0 for d in hi]
+            if ctx.branch(z3.Or(*nz) if len(nz) > 1 else nz[0]):
+                pyraise(OverflowError, 'int too big to convert')
+        items = list(digits[:length]) + [0] * max(0, length - len(digits))
+        if byteorder == 'big':
+            items.reverse()
+        return ops._mk_like(b'', items=items)
     if ctx.branch(t < 0):
         pyraise(OverflowError, "can't convert negative int to unsigned")
     if ctx.branch(t >= z3.IntVal(256 ** length)):
         pyraise(OverflowError, 'int too big to convert')
-    if isinstance(byteorder, Sym):
-        raise Unsupported('symbolic byteorder')
     items = []
     for i in range(length):
         e = z3.simplify((t / z3.IntVal(256 ** i)) % 256) if i else z3.simplify(t % 256)
@@ -441,20 +512,21 @@ def int_to_bytes(ip, x, length=1, byteorder='big', signed=False):
 
 
 def int_bit_length(ip, x):
+    """k = x.bit_length(): fresh k with  k == j  <=>  2^(j-1) <= |x| < 2^j  for j up to the stated bound"""
     ctx = ip.ctx
     if isinstance(x, int):
         return x.bit_length()
     t = int_term(x)
     a = z3.If(t < 0, -t, t)
-    opts = [('0', a == 0)]
     K = ip.reg.bounds.get('bit_length_max', 72)
-    for j in range(1, K + 1):
-        opts.append((str(j), z3.And(a >= z3.IntVal(2 ** (j - 1)), a < z3.IntVal(2 ** j))))
-    opts.append(('big', a >= z3.IntVal(2 ** K)))
-    d = ctx.choose(opts)
-    if d == K + 1:
+    if ctx.check(a >= z3.IntVal(2 ** K)) != z3.unsat:
         raise Unsupported('bit_length of a value not bounded by 2^%d' % K)
-    return d
+    k = ctx.fresh_int('bitlen')
+    conj = [z3.And(k >= 0, k <= K), (k == 0) == (a == 0)]
+    for j in range(1, K + 1):
+        conj.append((k == j) == z3.And(a >= z3.IntVal(2 ** (j - 1)), a < z3.IntVal(2 ** j)))
+    ctx.fact(z3.And(*conj))
+    return SInt(k)
 
 
 def int_from_bytes(ip, args, kwargs):
@@ -472,6 +544,54 @@ def int_from_bytes(ip, args, kwargs):
     if order == 'big':
         items.reverse()
     return wrap_int(recompose(ctx, items))
+
+
+def is_byte_term(ctx, e):
+    if isinstance(e, int):
+        return 0 <= e <= 255
+    if z3.is_int_value(e):
+        return 0 <= e.as_long() <= 255
+    if e.get_id() in ctx.byte_terms:
+        return True
+    if z3.is_app_of(e, z3.Z3_OP_MOD) and z3.is_int_value(e.arg(1)) and 0 < e.arg(1).as_long() <= 256:
+        return True
+    return False
+
+
+def bytesum_digits(ctx, t):
+    """little-endian digit list [d_0, d_1, ...] if t is syntactically sum(d_i * 256^i) with byte-valued d_i"""
+    t = z3.simplify(t)
+    if z3.is_int_value(t):
+        return None
+    terms = list(t.children()) if z3.is_app_of(t, z3.Z3_OP_ADD) else [t]
+    digits = {}
+    for x in terms:
+        coef, e = 1, x
+        if z3.is_int_value(x):
+            v = x.as_long()
+            if v < 0:
+                return None
+            j = 0
+            while v:
+                if j in digits:
+                    return None
+                digits[j] = v % 256
+                v //= 256
+                j += 1
+            continue
+        if z3.is_app_of(x, z3.Z3_OP_MUL) and x.num_args() == 2 and z3.is_int_value(x.arg(0)):
+            coef, e = x.arg(0).as_long(), x.arg(1)
+        j = _pow256(coef) if coef >= 1 else None
+        if j is None or j in digits or not is_byte_term(ctx, e):
+            return None
+        digits[j] = e
+    if not digits or (len(terms) == 1 and 0 in digits and not z3.is_app_of(t, z3.Z3_OP_ADD) and len(digits) == 1
+                      and not (t.get_id() in ctx.byte_terms)):
+        # a lone byte term is its own single digit only if registered as a byte
+        if not digits:
+            return None
+    n = max(digits) + 1
+    return [digits.get(i, 0) for i in range(n)]
 
 
 def _pow256(c):
@@ -764,7 +884,12 @@ def m_len(ip, args, kwargs):
 def m_abs(ip, args, kwargs):
     v = args[0]
     if isinstance(v, (SInt, SBool)):
-        t = int_term(v)
+        t = z3.simplify(int_term(v))
+        if bytesum_digits(ip.ctx, t) is not None:
+            return wrap_int(t)             # a sum of bytes is non-negative
+        nt = z3.simplify(-t)
+        if bytesum_digits(ip.ctx, nt) is not None:
+            return wrap_int(nt)            # t is minus a sum of bytes
         return wrap_int(z3.If(t < 0, -t, t))
     if isinstance(v, SFloat):
         return SFloat(z3.If(v.t < 0, -v.t, v.t))
@@ -925,5 +1050,7 @@ def install_default_models(reg):
     M[isinstance] = m_isinstance
     M[int.from_bytes] = int_from_bytes
     M[print] = lambda ip, a, k: None
+    import io
+    M[io.BytesIO] = m_bytesio
     from . import strings
     strings.install(reg)
